@@ -1227,6 +1227,9 @@ func runFrameCase(r *Rng, em *Emitter, label string, tags string) {
 		return
 	}
 	if lg.desync != "" {
+		// the step callbacks' depth and the frames the harness saw opened disagree: before blaming the harness, look at the EVM's
+		// own depth counter, which must be back at rest after the transaction (C03)
+		em.Op("C03", "S depth-at-rest", fmt.Sprint(reflect.ValueOf(env.evm).Elem().FieldByName("depth").Int()))
 		em.Op("*", "Q depth", "harness-desync:"+strings.ReplaceAll(lg.desync, " ", "_"))
 		return
 	}
